@@ -35,9 +35,10 @@ PAIRS = [('i4', 'i4'), ('i4', 'i8'), ('u4', 'u4'), ('u4', 'u8'), ('u4', 'i8'), (
          ('f4', 'f4'), ('f4', 'f8'), ('f8', 'f8'), ('i8', 'f8')]
 
 
-def _case(n, initial, final, offset, pair, container='array', delta=0, vseed=0):
+def _case(n, initial, final, offset, pair, container='array', delta=0, vseed=0, layout='C'):
     return {'n': n, 'initial': initial, 'final': final, 'offset': offset, 'in': pair[0], 'out': pair[1],
-            'container': container, 'delta': delta, 'vseed': vseed}
+            'container': container, 'delta': delta, 'vseed': vseed, 'layout': layout,
+            'out_layout': 'strided' if (n + int(initial) + 2 * int(final) + offset + vseed) % 4 == 1 else 'C'}
 
 
 def sweep(tier):
@@ -47,7 +48,7 @@ def sweep(tier):
             for final in (False, True):
                 for offset in (0, 5):
                     for pair in PAIRS:
-                        cases.append(_case(n, initial, final, offset, pair))
+                        cases.append(_case(n, initial, final, offset, pair, layout=['C', 'strided', 'readonly'][(n + offset + len(cases)) % 3]))
                     if n >= 1:
                         cases.append(_case(n, initial, final, offset, ('i8', 'i8'), 'list'))
                         cases.append(_case(n, initial, final, offset, ('u4', 'u8'), 'list'))
@@ -78,7 +79,7 @@ def gen(rng, tier):
     n = rng.choice([0, 1, 2, 9, 100, rng.randrange(0, 10 ** 4)])
     return _case(n, rng.random() < 0.5, rng.random() < 0.5, rng.choice([0, 1, 17, 1000]), rng.choice(PAIRS),
                  rng.choice(['array', 'array', 'list']) if n >= 1 else 'array', rng.choice([0, 0, 0, -1, 1, 3]),
-                 rng.randrange(1 << 20))
+                 rng.randrange(1 << 20), layout=rng.choice(['C', 'C', 'strided', 'readonly']))
 
 
 def _values(case):
@@ -86,6 +87,10 @@ def _values(case):
     r = np.random.default_rng(case['vseed'])
     v = (np.arange(n) * 3 + 1) % 7 + 1 if case['vseed'] == 0 else r.integers(0, 9, n)
     return v.astype(np.dtype(case['in']))
+
+
+class GapsWritten(Exception):
+    pass
 
 
 def kernel_call(case, arena):
@@ -99,8 +104,23 @@ def kernel_call(case, arena):
         arr = v if case['container'] == 'array' else [int(x) for x in v]
         out = np.full(n_out, 77, dtype=odt)
     else:
-        arr = arena.put(v) if case['container'] == 'array' else [int(x) for x in v]
-        out = arena.alloc(n_out, odt, fill=77)
+        lay = case.get('layout', 'C')
+        if case['container'] != 'array':
+            arr = [int(x) for x in v]
+        elif lay == 'strided' and len(v):
+            big = np.repeat(v, 2)
+            big[1::2] = 99
+            arr = arena.put(big)[::2]            # every second element of a longer array
+        else:
+            arr = arena.put(v)
+            if lay == 'readonly':
+                arr.setflags(write=False)
+        gaps = None
+        if case.get('out_layout') == 'strided' and n_out:
+            gaps = arena.alloc(2 * n_out, odt, fill=77)
+            out = gaps[::2]                      # a column of a wider table / every second slot of a buffer
+        else:
+            out = arena.alloc(n_out, odt, fill=77)
     T = case.get('threads')
     if T:
         import numba
@@ -111,6 +131,8 @@ def kernel_call(case, arena):
     finally:
         if T:
             numba.set_num_threads(old)
+    if arena is not None and gaps is not None and not (gaps[1::2] == 77).all():
+        raise GapsWritten('slots between the elements of a strided output were written')
     return np.array(out, copy=True), np.asarray(total)
 
 
@@ -146,7 +168,7 @@ def run(case):
         out['nontrivial'] = ['bc-batch', len(res), case['bc_batch'][0]]
         return out
     n_expected_out = case['n'] - 1 + int(case['initial']) + int(case['final'])
-    ra, rb, da, db, exc = A.two_fills(lambda ar: kernel_call(case, ar), nbytes=1 << 18 if case['n'] < 2000 else max(1 << 20, 20 * case['n'] + (1 << 16)))
+    ra, rb, da, db, exc = A.two_fills(lambda ar: kernel_call(case, ar), nbytes=1 << 18 if case['n'] < 2000 else max(1 << 20, 36 * case['n'] + (1 << 16)))
     bump(out['faults'], 'arena-two-fills')
     if n_expected_out + case['delta'] < 0 and case['delta'] != 0:
         case = dict(case, delta=0)      # a negative length cannot be constructed
@@ -159,6 +181,9 @@ def run(case):
         else:
             violation(out, 'wrong-output-length-accepted', site, {'case': case})
         out['nontrivial'] = ['wrong-len', case['n'], case['initial'], case['final'], case['delta']]
+        return out
+    if isinstance(exc, GapsWritten):
+        violation(out, 'write-outside-arrays', site, {'case': case, 'error': str(exc)})
         return out
     if exc is not None:
         violation(out, 'raises:' + type(exc).__name__, site, {'case': case, 'error': repr(exc)[:200]})
